@@ -97,6 +97,7 @@ func genScriptCase(r *Rng, feat map[string]int) scriptCase {
 	// together with keep-names (their interactions are recorded findings, replayed from the corpus)
 	g.noWith = r.Bool() || opts.KeepNames || opts.MinifyIdentifiers // with + minify: recorded finding (pinned nested names are not reserved)
 	g.noFnInBlock = !g.noWith
+	g.evalSibs = r.Chance(30)
 	sc.src, sc.top = g.script(r.Range(3, 7))
 	sc.opts = opts
 	sc.optDesc = strings.Join(desc, " ")
@@ -115,6 +116,9 @@ func fixedScriptCorpus() []scriptCase {
 				"function f(g) { let Comp = g(); return <Comp x={[" + jsxCandidates() + "].join()}/> }\n" +
 				"$p(\"r\", f(() => \"dComp\"));\n",
 			opts: jsxOpts, optDesc: "minify-identifiers jsx=preserve"},
+		{kind: "script", scenario: "regression-sibling-direct-eval-pinned-names-reserved",
+			src:  progPrelude + globalsPrelude() + "function first(code) { return eval(code); }\nfunction second(" + allLetters(", ") + ") {\n  function helper(valueArg, extraArg) { return [valueArg, extraArg, " + allLetters(", ") + "].join(); }\n  return eval(\"helper(1,2)\");\n}\n$p(\"r\", first(\"1\"), second(" + allLetters(", ", true) + "));\n",
+			opts: api.TransformOptions{Loader: api.LoaderJS, MinifyIdentifiers: true, LogLevel: api.LogLevelSilent}, optDesc: "minify-identifiers"},
 		{kind: "script", scenario: "annexb-function-in-block-shadows-parameter",
 			src:  progPrelude + globalsPrelude() + "function fn1(t) { { function t() {} } return typeof t }\n$p(\"r\", fn1(\"s\"));\n",
 			opts: api.TransformOptions{Loader: api.LoaderJS, LogLevel: api.LogLevelSilent}, optDesc: "(defaults)"},
@@ -137,6 +141,20 @@ func fixedScriptCorpus() []scriptCase {
 			src:  progPrelude + globalsPrelude() + "with ({ a: 1, b: 1, c: 1, d: 1, e: 1, f: 1, g: 1, h: 1, i: 1, j: 1, k: 1, l: 1, m: 1, n: 1, o: 1, p: 1, q: 1, r: 1, s: 1, t: 1, u: 1, v: 1, w: 1, x: 1, y: 1, z: 1 }) {\n  class K {}\n  $p(\"r\", typeof K);\n}\n",
 			opts: api.TransformOptions{Loader: api.LoaderJS, KeepNames: true, MinifyIdentifiers: true, LogLevel: api.LogLevelSilent}, optDesc: "keep-names minify-identifiers"},
 	}
+}
+
+// all one-character identifiers except $ (a free global of every program), as a parameter
+// list or (quoted) as an argument list
+func allLetters(sep string, quoted ...bool) string {
+	var l []string
+	for _, c := range "abcdefghijklmnopqrstuvwxyzABCDEFGHIJKLMNOPQRSTUVWXYZ_" {
+		if len(quoted) > 0 {
+			l = append(l, fmt.Sprintf("\"v%c\"", c))
+		} else {
+			l = append(l, string(c))
+		}
+	}
+	return strings.Join(l, sep)
 }
 
 // every name the JSX capital-letter loop can stop at (not a-z), read as a free name
